@@ -1,3 +1,4 @@
+pub mod queues;
 pub mod runloop;
 pub mod world;
 
@@ -12,6 +13,7 @@ pub struct Ctx {
     pub iset: InstructionSet,
     pub names: Vec<String>,
     pub tier: String,
+    pub cur_index: u64,
     pub extra: std::collections::BTreeMap<String, u64>,
 }
 
@@ -22,6 +24,7 @@ impl Ctx {
             iset,
             names,
             tier: args.str("tier", "quick"),
+            cur_index: 0,
             extra: Default::default(),
         }
     }
@@ -69,6 +72,29 @@ pub fn run_one(engine: &str, seed: u64, ctx: &mut Ctx) -> OneResult {
                 counts: ex.counts,
             }
         }
+        "queues" => {
+            let sc = queues::generate(seed, &ctx.names, ctx.tier == "thorough");
+            let (vs, stats, sample) = queues::execute(&sc, &mut ctx.iset, &ctx.names);
+            let scv = if vs.is_empty() { Value::Null } else { serde_json::to_value(&sc).unwrap() };
+            OneResult {
+                violations: vs.into_iter().map(|v| (v, scv.clone())).collect(),
+                stats,
+                counts: vec![],
+                sample,
+            }
+        }
+        "queues-enum" => {
+            // `seed` is ignored: the run index enumerates the space (see main.rs)
+            let sc = queues::enumerate(ctx.cur_index);
+            let (vs, stats, sample) = queues::execute(&sc, &mut ctx.iset, &ctx.names);
+            let scv = if vs.is_empty() { Value::Null } else { serde_json::to_value(&sc).unwrap() };
+            OneResult {
+                violations: vs.into_iter().map(|v| (v, scv.clone())).collect(),
+                stats,
+                counts: vec![],
+                sample,
+            }
+        }
         "runloop" => {
             let sweep = if ctx.tier == "thorough" { 256 } else { 64 };
             let (stats, found, sample) = runloop::run_program(seed, &mut ctx.iset, &ctx.names, sweep);
@@ -96,6 +122,10 @@ pub fn replay_one(engine: &str, scenario: &Value, ctx: &mut Ctx) -> Vec<Violatio
             let sc: runloop::RunloopSc = serde_json::from_value(scenario.clone()).expect("runloop scenario");
             runloop::execute(&sc, &mut ctx.iset, &ctx.names).violations
         }
+        "queues" | "queues-enum" => {
+            let sc: queues::QueueSc = serde_json::from_value(scenario.clone()).expect("queues scenario");
+            queues::execute(&sc, &mut ctx.iset, &ctx.names).0
+        }
         _ => panic!("unknown engine {}", engine),
     }
 }
@@ -104,6 +134,8 @@ pub fn scenario_of(engine: &str, seed: u64, ctx: &mut Ctx) -> Value {
     match engine {
         "world" => serde_json::to_value(world::generate(seed, &ctx.names)).unwrap(),
         "runloop" => serde_json::to_value(runloop::generate(seed, &ctx.names)).unwrap(),
+        "queues" => serde_json::to_value(queues::generate(seed, &ctx.names, ctx.tier == "thorough")).unwrap(),
+        "queues-enum" => serde_json::to_value(queues::enumerate(ctx.cur_index)).unwrap(),
         _ => panic!("unknown engine {}", engine),
     }
 }
@@ -120,6 +152,22 @@ pub fn minimise_one(engine: &str, scenario: &Value, key: &str, ctx: &mut Ctx) ->
                     .iter()
                     .any(|v| v.key() == key)
             });
+            serde_json::to_value(best).unwrap()
+        }
+        "queues" | "queues-enum" => {
+            let sc: queues::QueueSc = serde_json::from_value(scenario.clone()).expect("queues scenario");
+            let names = ctx.names.clone();
+            let iset = &mut ctx.iset;
+            let mut fails = |c: &queues::QueueSc| queues::execute(c, iset, &names).0.iter().any(|v| v.key() == key);
+            let best = crate::minimise::shrink_queues(&sc, &mut fails);
+            serde_json::to_value(best).unwrap()
+        }
+        "runloop" => {
+            let sc: runloop::RunloopSc = serde_json::from_value(scenario.clone()).expect("runloop scenario");
+            let names = ctx.names.clone();
+            let iset = &mut ctx.iset;
+            let mut fails = |c: &runloop::RunloopSc| runloop::execute(c, iset, &names).violations.iter().any(|v| v.key() == key);
+            let best = crate::minimise::shrink_runloop(&sc, &mut fails);
             serde_json::to_value(best).unwrap()
         }
         _ => scenario.clone(),
